@@ -89,6 +89,19 @@ type Store struct {
 	UFs   map[string]UFSig // uninterpreted functions
 	True  *Term
 	False *Term
+	// share abstraction: a/(a+b+...) is replaced by a fresh "share" variable with linear lemmas
+	ShareOn bool
+	shares  map[int]*shareGroup
+	shareBy map[string]*Term
+}
+
+type shareGroup struct {
+	D     *Term
+	items []shareItem
+}
+type shareItem struct {
+	A *Term
+	Q *Term
 }
 
 type UFSig struct {
@@ -97,7 +110,7 @@ type UFSig struct {
 }
 
 func NewStore() *Store {
-	s := &Store{tab: map[string]*Term{}, UFs: map[string]UFSig{}}
+	s := &Store{tab: map[string]*Term{}, UFs: map[string]UFSig{}, shares: map[int]*shareGroup{}, shareBy: map[string]*Term{}}
 	s.True = s.intern(&Term{Op: OpConst, Sort: SBool, B: true})
 	s.False = s.intern(&Term{Op: OpConst, Sort: SBool, B: false})
 	return s
@@ -662,6 +675,17 @@ func (s *Store) Mul(ts ...*Term) *Term {
 	if c.Sign() == 0 {
 		return s.zero(so)
 	}
+	if s.ShareOn && so.K == KReal {
+		if q := s.shareRewrite(exp, base, &order); q != nil {
+			for _, t := range q {
+				if _, ok := base[t.ID]; !ok {
+					base[t.ID] = t
+					order = append(order, t.ID)
+				}
+				exp[t.ID]++
+			}
+		}
+	}
 	var fs []*Term
 	sort.Ints(order)
 	for _, id := range order {
@@ -709,6 +733,125 @@ func (s *Store) Mul(ts ...*Term) *Term {
 		return s.intern(&Term{Op: OpMul, Sort: so, Args: fs})
 	}
 	return s.intern(&Term{Op: OpMul, Sort: so, Args: append([]*Term{s.mkConst(so, c)}, fs...)})
+}
+
+// shareRewrite looks for A * (1/D) inside a product where D is a sum and A one of its
+// summands (coefficient 1): the pair is replaced by the share variable q(A,D). It returns the
+// share variables to multiply in; exp is updated in place.
+func (s *Store) shareRewrite(exp map[int]int, base map[int]*Term, order *[]int) []*Term {
+	var out []*Term
+	for _, id := range *order {
+		if exp[id] >= 0 {
+			continue
+		}
+		D := base[id]
+		if D.Op != OpAdd {
+			continue
+		}
+		for exp[id] < 0 {
+			matched := false
+			for _, A := range D.Args {
+				if A.Op == OpConst {
+					continue
+				}
+				var fs []*Term
+				if A.Op == OpMul {
+					if A.Args[0].Op == OpConst {
+						continue // coefficient != 1
+					}
+					fs = A.Args
+				} else {
+					fs = []*Term{A}
+				}
+				need := map[int]int{}
+				for _, f := range fs {
+					need[f.ID]++
+				}
+				ok := true
+				for fid, n := range need {
+					if exp[fid] < n {
+						ok = false
+						break
+					}
+				}
+				if !ok {
+					continue
+				}
+				for fid, n := range need {
+					exp[fid] -= n
+				}
+				exp[id]++
+				out = append(out, s.shareVar(A, D))
+				matched = true
+				break
+			}
+			if !matched {
+				break
+			}
+		}
+	}
+	return out
+}
+
+func (s *Store) shareVar(A, D *Term) *Term {
+	key := fmt.Sprintf("%d/%d", A.ID, D.ID)
+	if q, ok := s.shareBy[key]; ok {
+		return q
+	}
+	q := s.Var(fmt.Sprintf("$share_%d_%d", A.ID, D.ID), SReal)
+	s.shareBy[key] = q
+	g := s.shares[D.ID]
+	if g == nil {
+		g = &shareGroup{D: D}
+		s.shares[D.ID] = g
+	}
+	g.items = append(g.items, shareItem{A: A, Q: q})
+	return q
+}
+
+// ShareAxioms: defining equations and the linear lemmas of all share groups.
+func (s *Store) ShareAxioms() []*Term {
+	on := s.ShareOn
+	s.ShareOn = false
+	defer func() { s.ShareOn = on }()
+	var out []*Term
+	zero, one := s.Float(0), s.Float(1)
+	var ids []int
+	for id := range s.shares {
+		ids = append(ids, id)
+	}
+	sort.Ints(ids)
+	for _, id := range ids {
+		g := s.shares[id]
+		var nonneg []*Term
+		for _, a := range g.D.Args {
+			nonneg = append(nonneg, s.Le(zero, a))
+		}
+		pos := s.And(append(nonneg, s.Lt(zero, g.D))...)
+		sum := zero
+		shared := map[int]bool{}
+		for _, it := range g.items {
+			// definition (exact): q*D = A when D != 0
+			out = append(out, s.Implies(s.Not(s.Eq(g.D, zero)), s.Eq(s.Mul(it.Q, g.D), it.A)))
+			// lemmas
+			out = append(out, s.Implies(pos, s.And(s.Le(zero, it.Q), s.Le(it.Q, one))))
+			out = append(out, s.Implies(s.And(pos, s.Eq(it.A, zero)), s.Eq(it.Q, zero)))
+			sum = s.Add(sum, it.Q)
+			shared[it.A.ID] = true
+		}
+		complete := true
+		for _, a := range g.D.Args {
+			if !shared[a.ID] {
+				complete = false
+			}
+		}
+		if complete {
+			out = append(out, s.Implies(pos, s.Eq(sum, one)))
+		} else {
+			out = append(out, s.Implies(pos, s.Le(sum, one)))
+		}
+	}
+	return out
 }
 
 // Recip is 1/x in power-product normal form (x*(1/x) cancels; the caller
